@@ -944,6 +944,27 @@ theorem send_writes_only_host_and_authorization (cfg : Cfg) (s : Sess) (r : Req)
 example : title (lit "Proxy-Authorization") ≠ title (lit "Host") ∧
     title (lit "Proxy-Authorization") ≠ title (lit "Authorization") := by decide
 
+/-! ### the referrer's authority after `_strip_userinfo` -/
+
+theorem afterLastAt_go_no_at : ∀ (l best : Str), (64 ∉ l → 64 ∉ best) → 64 ∉ afterLastAt.go l best
+  | [], best, h => by unfold afterLastAt.go; exact h (by simp)
+  | c :: t, best, h => by
+    unfold afterLastAt.go
+    split
+    · exact afterLastAt_go_no_at t t (fun x => x)
+    · rename_i hc
+      exact afterLastAt_go_no_at t best (fun ht => h (by simp [ht]; exact fun e => hc e.symm))
+
+/-- `stripped_authority_has_no_at`: what `_strip_userinfo` puts in place of the authority of the referring URL
+holds no `@` — whatever the shape of the user-info (`user:pw@`, `user@`, `:token@` with an EMPTY user name, `:@`,
+`@`, several `@`): nothing in front of the last `@` survives, so no byte of the user-info reaches the Referer. -/
+theorem stripped_authority_has_no_at (authority : Str) : 64 ∉ afterLastAt authority := by
+  unfold afterLastAt
+  exact afterLastAt_go_no_at authority authority (fun x => x)
+
+/-- non-vacuity: a token-style login with an empty user name is stripped -/
+example : stripUserinfo (lit "http://:token@a.example/dir/?q=a@b") = lit "http://a.example/dir/?q=a@b" := by decide
+
 def exUrlB : UrlC :=
   { scheme := lit "https", hostname := lit "b.example", port := 443, ipv6 := false, path := lit "/y", query := [],
     username := [], password := [], normUser := [], normPass := [] }
